@@ -28,7 +28,18 @@ func (o Outcome) String() string {
 	return [...]string{"done", "assert-fail", "panic", "infeasible", "unwind-failure", "unsupported", "step-limit", "solver-unknown"}[o]
 }
 
+// protoStep is one visible operation of a task in protocol mode (C07).
+type protoStep struct {
+	Kind  string // load, store, cas, io, done, result
+	A, B  *Term  // store: value; cas: old,new; io/result: arguments
+	Var   *Term  // load: the fresh value variable; cas: the fresh Boolean result
+	PcLen int    // len(pc) when the event was emitted
+	Site  string
+}
+
 type PathResult struct {
+	Proto   []protoStep
+	PC      []*Term
 	Outcome Outcome
 	Label   string
 	Msg     string
@@ -86,6 +97,8 @@ type State struct {
 	hooks    map[string]Value // scratch for intrinsics
 	subst    map[int]*Term    // term id -> constant implied by pc (t == k)
 	retry    bool
+	prefix   string
+	proto    []protoStep // protocol-mode event trace
 	noConst  map[int]int      // term id -> len(pc) at which tryConst last failed
 }
 
@@ -98,7 +111,7 @@ type inputRec struct {
 }
 
 func (st *State) clone() *State {
-	n := &State{heap: make(map[int]Value, len(st.heap)), pcUnsure: st.pcUnsure, model: st.model, steps: st.steps}
+	n := &State{heap: make(map[int]Value, len(st.heap)), pcUnsure: st.pcUnsure, model: st.model, steps: st.steps, prefix: st.prefix}
 	for k, v := range st.heap {
 		n.heap[k] = v
 	}
@@ -130,6 +143,7 @@ func (st *State) clone() *State {
 		n.names[k] = v
 	}
 	n.inputs = append([]inputRec(nil), st.inputs...)
+	n.proto = append([]protoStep(nil), st.proto...)
 	n.reach = append([]string(nil), st.reach...)
 	n.notes = append([]string(nil), st.notes...)
 	if st.subst != nil {
@@ -180,6 +194,8 @@ type Config struct {
 	ConcStores    bool
 	StubConst     map[string]uint64
 	StubFirstByte []string
+	CasesAsForks  bool
+	NamePrefix    string
 }
 
 type caseReq struct {
